@@ -484,6 +484,12 @@ func deepFamily(full bool, f func([]byte)) {
 		}
 		f([]byte(a.String() + "]"))
 		f([]byte(a.String() + ",]"))
+		if n > 5000 {
+			// objects stop at 5000 members: the Lean model files members in an association list, so one
+			// model answer for a 20000-member object costs a minute and every entry variant x chunking
+			// asks for its own (the thorough run then ends in an hour-long tail on one worker)
+			continue
+		}
 		f([]byte(o1.String() + "}"))
 		f([]byte(o2.String() + "}"))
 		f([]byte(o1.String()))
